@@ -225,25 +225,22 @@ theorem map_view_decls (d : List (Str × Str)) :
 
 mutual
 theorem pump_tree (t : XTree) (queue : List NsMap) (frames : List (List (Str × Str))) (rest : List Tok)
-    (hp : t.allPassed = true) (hq : ∀ p, NsMap.get (topMap queue) p = inScope frames p) :
+    (hq : ∀ p, NsMap.get (topMap queue) p = inScope frames p) :
     (pump queue [] (toks t ++ rest)).map PEv.view
       = spec frames t ++ (pump queue [] rest).map PEv.view := by
   match t with
   | .node d q a st tx kids tl =>
-    simp only [XTree.allPassed, Bool.and_eq_true, decide_eq_true_eq] at hp
-    obtain ⟨hst, hk⟩ := hp
-    subst hst
     have hq' : ∀ p, NsMap.get (topMap (mergeParent queue (declMap d []) :: queue)) p
         = inScope (d :: frames) p := by
       intro p
       simp only [topMap, List.head?, Option.getD]
       rw [get_mergeParent, inScope_cons, hq]
     have ih := pump_kids kids (mergeParent queue (declMap d []) :: queue) (d :: frames)
-      (Tok.end q tx tl :: rest) hk hq'
+      (Tok.end q tx tl :: rest) hq'
     simp only [toks, spec, List.append_assoc, List.cons_append, List.nil_append]
     rw [pump_decls, List.map_append, map_view_decls]
     congr 1
-    simp only [pump, keep, List.map_cons]
+    simp only [pump, List.map_cons]
     rw [ih]
     simp only [pump, List.map_cons, PEv.view]
     congr 1
@@ -252,15 +249,14 @@ theorem pump_tree (t : XTree) (queue : List NsMap) (frames : List (List (Str × 
     have := hq' p
     simpa [topMap] using this
 theorem pump_kids (ks : List XTree) (queue : List NsMap) (frames : List (List (Str × Str))) (rest : List Tok)
-    (hp : XTree.allPassedKids ks = true) (hq : ∀ p, NsMap.get (topMap queue) p = inScope frames p) :
+    (hq : ∀ p, NsMap.get (topMap queue) p = inScope frames p) :
     (pump queue [] (toksKids ks ++ rest)).map PEv.view
       = specKids frames ks ++ (pump queue [] rest).map PEv.view := by
   match ks with
   | [] => simp [toksKids, specKids]
   | k :: ks' =>
-    simp only [XTree.allPassedKids, Bool.and_eq_true] at hp
     simp only [toksKids, specKids, List.append_assoc]
-    rw [pump_tree k queue frames _ hp.1 hq, pump_kids ks' queue frames rest hp.2 hq]
+    rw [pump_tree k queue frames _ hq, pump_kids ks' queue frames rest hq]
 end
 
 end Xs.Backends
@@ -295,22 +291,6 @@ theorem iterwalkKids_eq_toks (wk : List (Str × Str)) (ks : List XTree) (m : NsM
     rw [h1.2] at h2
     rw [h1.1, h1.2]
     exact ⟨by rw [h2.1], h2.2⟩
-end
-
-mutual
-theorem allPassed_redecl (wk : List (Str × Str)) (t : XTree) (m : NsMap) :
-    (redecl wk t m).1.allPassed = t.allPassed := by
-  match t with
-  | .node d q a st tx kids tl =>
-    have ih := fun m' => allPassedKids_redecl wk kids m'
-    cases hu : targetUri q <;> simp [redecl, hu, XTree.allPassed, ih]
-theorem allPassedKids_redecl (wk : List (Str × Str)) (ks : List XTree) (m : NsMap) :
-    XTree.allPassedKids (redeclKids wk ks m).1 = XTree.allPassedKids ks := by
-  match ks with
-  | [] => simp [redeclKids]
-  | k :: ks' =>
-    simp only [redeclKids, XTree.allPassedKids]
-    rw [allPassed_redecl wk k m, allPassedKids_redecl wk ks' _]
 end
 
 end Xs.Backends
